@@ -11,7 +11,7 @@
 (*   f    sequence of lock files        <<owner, time, exclusive>>         *)
 (*   p    sequence, one per process     <<believes, ctxAlive, exclusive,   *)
 (*                                        robbed, stall, clean, faulted,   *)
-(*                                        newest, robbedAt>>               *)
+(*                                        newest, robbedAt, kept>>         *)
 (*   r    sequence of remote holders    <<time, exclusive>>                *)
 (* believes = Lock() returned success and the process neither called       *)
 (* Unlock nor died; ctxAlive = the context returned by Lock() is not       *)
@@ -21,7 +21,9 @@
 (* fault/removal/cancel; faulted = a Save/Remove fault was ever injected;  *)
 (* newest = time of the newest lock file the process saved (-1: none);     *)
 (* robbedAt = time (ms) somebody else last removed a lock file of the      *)
-(* process (meaningful when robbed = 1).                                   *)
+(* process (meaningful when robbed = 1); kept = time of the newest lock    *)
+(* file the process saved and did not remove itself (still there, or       *)
+(* removed by somebody else; -1: none).                                    *)
 (* A remote holder is a process on another host that saved a lock file at  *)
 (* `time` and follows the protocol: it stops using the repository when it  *)
 (* could not refresh for RefreshTO.                                        *)
@@ -70,8 +72,10 @@ HolderHasFile(o) ==
 FreshWithin(o, slack) ==
   \A i \in 1..Len(o.p) : Holds(o, i) =>
       IF Robbed(o, i)
-      THEN \* its lock file was removed by others: judged by the newest lock file it managed to save
-           o.now - o.p[i][8] <= RefreshToMs + slack + StallOf(o, i)
+      THEN \* its lock file was removed by others: judged by the newest lock file it saved and did not remove itself
+           \* (the file its lock handle points to is such a file: a forced refresh that finds it missing must stop,
+           \* the replacement it cleans up does not count)
+           o.now - o.p[i][10] <= RefreshToMs + slack + StallOf(o, i)
       ELSE \E k \in OwnFiles(o, i) : o.now - o.f[k][2] <= RefreshToMs + slack + StallOf(o, i)
 FreshWhileActive(o) == FreshWithin(o, SlackMs)
 
